@@ -110,7 +110,9 @@ func isNoAlias(part []int) bool {
 // Only a failure that shows exactly that behaviour is attributed to the class.
 func fmaKnownClass(vals []*Opnd, o Obs, pv interface{}, isNaN bool, prec uint32, mode uint8) string {
 	x, y, u := vals[0].V, vals[1].V, vals[2].V
-	if x.Form != fFinite || y.Form != fFinite || u.Form == fZero {
+	if x.Form != fFinite || y.Form != fFinite || u.Form != fFinite {
+		// an infinite addend absorbs any finite product (repaired defect: the flushed product
+		// used to meet the opposite infinity and panic); a zero addend goes through Mul
 		return ""
 	}
 	p := mulExact(x, y)
